@@ -56,6 +56,9 @@ type cache interface {
 
 // lruCache represents a least recently used Cache implementation.
 type lruCache struct {
+	// mu protects cache and counts: TopN reads counts for explicit row ids
+	// without holding the fragment lock while writes update them.
+	mu     sync.Mutex
 	cache  *lru.Cache
 	counts map[uint64]uint64
 	stats  stats.StatsClient
@@ -79,19 +82,27 @@ func (c *lruCache) BulkAdd(id, n uint64) {
 
 // Add adds a count to the cache.
 func (c *lruCache) Add(id, n uint64) {
+	c.mu.Lock()
+	defer c.mu.Unlock()
 	c.cache.Add(id, n)
 	c.counts[id] = n
 }
 
 // Get returns a count for a given id.
 func (c *lruCache) Get(id uint64) uint64 {
+	c.mu.Lock()
+	defer c.mu.Unlock()
 	n, _ := c.cache.Get(id)
 	nn, _ := n.(uint64)
 	return nn
 }
 
 // Len returns the number of items in the cache.
-func (c *lruCache) Len() int { return c.cache.Len() }
+func (c *lruCache) Len() int {
+	c.mu.Lock()
+	defer c.mu.Unlock()
+	return c.cache.Len()
+}
 
 // Invalidate is a no-op.
 func (c *lruCache) Invalidate() {}
@@ -101,6 +112,8 @@ func (c *lruCache) Recalculate() {}
 
 // IDs returns a list of all IDs in the cache.
 func (c *lruCache) IDs() []uint64 {
+	c.mu.Lock()
+	defer c.mu.Unlock()
 	a := make([]uint64, 0, len(c.counts))
 	for id := range c.counts {
 		a = append(a, id)
@@ -111,6 +124,8 @@ func (c *lruCache) IDs() []uint64 {
 
 // Top returns all counts in the cache.
 func (c *lruCache) Top() []bitmapPair {
+	c.mu.Lock()
+	defer c.mu.Unlock()
 	a := make([]bitmapPair, 0, len(c.counts))
 	for id, n := range c.counts {
 		a = append(a, bitmapPair{
